@@ -88,6 +88,7 @@ func Boot(mode string, k *plan.Knobs) error {
 	if k.CardLimit > 0 {
 		writer.SetCardinalityLimit(uint16(k.CardLimit))
 	}
+	applyMetricsKnobs(k)
 	switch mode {
 	case "full":
 		hooks.GlobalHooks.ParseTemplatesHook = func(htmlTemplate *htmltemplate.Template, textTemplate *texttemplate.Template) {}
